@@ -5,7 +5,7 @@ from common import *
 ALLOWED_AXIOMS = {"propext", "Classical.choice", "Quot.sound"}
 FORBIDDEN = [r"\bsorry\b", r"\badmit\b", r"^\s*axiom\s", r"\bnative_decide\b", r"\bbv_decide\b",
              r"\bimplemented_by\b", r"\bunsafe\s", r"maxHeartbeats\s+0\b", r"\bextern\b"]
-LOCK = os.path.join(LEAN, "Properties", "STATEMENTS.lock")
+LOCKDIR = os.path.join(LEAN, "Properties", "locks")
 
 
 def strip_comments(src: str) -> str:
@@ -99,14 +99,28 @@ def axioms_and_statements(theorems, imports=("Properties",)):
     return res
 
 
-def load_lock():
+def lock_path(pid):
+    return os.path.join(LOCKDIR, pid + ".json")
+
+
+def load_lock(pid=None):
+    """Statement locks are kept one file per property (lean/Properties/locks/<id>.json)
+    so that independent work on different properties never touches the same file."""
+    lock = {}
     try:
-        return json.load(open(LOCK))
-    except (OSError, ValueError):
-        return {}
+        names = sorted(os.listdir(LOCKDIR))
+    except OSError:
+        names = []
+    for n in names:
+        if n.endswith(".json") and (pid is None or n == pid + ".json"):
+            try:
+                lock.update(json.load(open(os.path.join(LOCKDIR, n))))
+            except (OSError, ValueError):
+                pass
+    return lock
 
 
-def audit(theorems, gen_dependent=()):
+def audit(theorems, gen_dependent=(), imports=("Properties",)):
     """Full proof audit for a property.  `gen_dependent` theorems may change
     statement hash only through regenerated definitions; they are still
     lock-checked (their statements mention the Gen names, not their bodies)."""
@@ -114,7 +128,7 @@ def audit(theorems, gen_dependent=()):
     if rep["forbidden"]:
         rep["ok"] = False
         rep["failed"].append("forbidden-token")
-    info = axioms_and_statements(theorems)
+    info = axioms_and_statements(theorems, imports=imports)
     lock = load_lock()
     for t in theorems:
         e = dict(info[t])
@@ -142,14 +156,18 @@ def audit(theorems, gen_dependent=()):
     return rep
 
 
-def write_lock(theorems):
-    info = axioms_and_statements(theorems)
-    lock = load_lock()
+def write_lock(pid, theorems, imports=("Properties",)):
+    """(Re)write lean/Properties/locks/<pid>.json from the statements as they elaborate now.
+    Statements are printed with only the property's own modules imported, so the
+    hash does not depend on what other property files import (e.g. Mathlib notation)."""
+    info = axioms_and_statements(theorems, imports=imports)
+    lock = {}
     for t in theorems:
         if info[t].get("axioms") is None:
             raise SystemExit("cannot lock %s: %s" % (t, info[t].get("error")))
         lock[t] = info[t]["stmt_sha"]
-    json.dump(dict(sorted(lock.items())), open(LOCK, "w"), indent=1)
+    os.makedirs(LOCKDIR, exist_ok=True)
+    json.dump(dict(sorted(lock.items())), open(lock_path(pid), "w"), indent=1)
     return lock
 
 
@@ -159,3 +177,22 @@ def leanchecker(modules):
         r = run(["lake", "env", "leanchecker", m], cwd=LEAN)
         res[m] = r.returncode == 0
     return res
+
+
+if __name__ == "__main__":
+    # python3 tools/audit.py lock <Cxx>   -> rewrite the statement lock of one property
+    # python3 tools/audit.py show <Cxx>   -> print statements + axioms
+    import importlib
+    sys.path.insert(0, os.path.dirname(os.path.abspath(__file__)))
+    cmd, pid = sys.argv[1], sys.argv[2]
+    prop = importlib.import_module("props." + pid)
+    imps = tuple(getattr(prop, "LEAN_MODULES", ["Properties"]))
+    if cmd == "lock":
+        lb = lake_build()
+        if not lb["ok"]:
+            raise SystemExit("lake build failed:\n" + lb["log"])
+        l = write_lock(pid, prop.THEOREMS, imports=imps)
+        print("locked %d statements for %s" % (len(l), pid))
+    else:
+        for t, e in axioms_and_statements(prop.THEOREMS, imports=imps).items():
+            print(t, e.get("axioms"), "\n   ", e.get("stmt", e.get("error")))
